@@ -43,10 +43,10 @@ def nrm_nil_list(ds):
 
 @C.spec([('ds', 'ObjList')], 'Bool')
 def fill_all_nil(ds):
-    """Fill.normalize keeps no item: every item is NIL or AlwaysBreak(NIL), literally"""
+    """Fill.normalize keeps no item: every item is NIL, literally"""
     if not ds:
         return True
-    return (ds[0] is NIL or (isinstance(ds[0], AlwaysBreak) and ds[0].doc is NIL)) and fill_all_nil(ds[1:])
+    return ds[0] is NIL and fill_all_nil(ds[1:])
 
 
 @C.spec([('d', 'Obj')], 'Bool')
